@@ -181,20 +181,17 @@ Proof. intros H; induction l as [|x l IH]; cbn; [reflexivity|]. rewrite H, IH. r
 Lemma existsb_negb_forallb {A} (p : A -> bool) l : existsb p l = negb (forallb (fun x => negb (p x)) l).
 Proof. induction l as [|x l IH]; cbn; [reflexivity|]. rewrite IH. destruct (p x); reflexivity. Qed.
 
-(* the one shape on which the macro's `..` differs from "a field was omitted":
-   a braced shape without fields whose skip_inner selects Debug *)
-Definition debug_dotdot_exotic (d : data) : bool :=
-  match d_fields d with [] => selects (d_skip_inner d) Debug | _ => false end.
-
-Lemma any_skip_debug d : d_shape d = ShStruct -> debug_dotdot_exotic d = false ->
-  data_any_skip_trait d Debug = negb (forallb (visible d Debug) (d_fields d)).
+Lemma any_skip_debug d : d_shape d = ShStruct ->
+  data_any_skip_trait d Debug && negb (match d_fields d with [] => true | _ => false end) =
+  negb (forallb (visible d Debug) (d_fields d)).
 Proof.
-  intros Hs Hex. unfold data_any_skip_trait, has_fields. rewrite Hs. cbn [andb].
-  rewrite trait_skipped_selects. unfold debug_dotdot_exotic in Hex.
+  intros Hs. unfold data_any_skip_trait, has_fields. rewrite Hs. cbn [andb].
+  rewrite trait_skipped_selects.
   destruct (d_fields d) as [|f fs] eqn:Ef.
-  - rewrite Hex. reflexivity.
-  - rewrite <- Ef. destruct (selects (d_skip_inner d) Debug) eqn:Hin; cbn [orb].
-    + rewrite Ef. cbn. unfold visible at 1. rewrite Hin, andb_false_r. reflexivity.
+  - cbn. rewrite andb_false_r. reflexivity.
+  - cbn [negb]. rewrite andb_true_r.
+    destruct (selects (d_skip_inner d) Debug) eqn:Hin; cbn [orb].
+    + cbn. unfold visible at 1. rewrite Hin, andb_false_r. reflexivity.
     + rewrite existsb_negb_forallb. f_equal. apply forallb_ext'. intros x.
       unfold field_skip, visible. rewrite trait_skipped_selects, Hin, andb_true_r. reflexivity.
 Qed.
@@ -208,14 +205,12 @@ Qed.
 
 Theorem gen_debug_correct it (a : value) t :
   wf_item it -> wf_value it a -> item_is_union it = false ->
-  (forall d, variant_of it a = Some d -> debug_dotdot_exotic d = false) ->
   spec_debug it a = Some t ->
   eval_debug (item_variants it) (map debug_arm (item_variants it)) a = Val t.
 Proof.
-  intros W [da [Hda La]] NU Hex Hsp.
+  intros W [da [Hda La]] NU Hsp.
   assert (Wda : wf_data da) by (eapply wf_item_data; eauto using nth_error_In).
   assert (NUa : d_shape da <> ShUnion) by (eapply wf_item_not_union; eauto using nth_error_In).
-  specialize (Hex da Hda).
   unfold spec_debug, variant_of in Hsp. rewrite Hda in Hsp.
   unfold eval_debug. rewrite nth_error_map', Hda. cbn [option_map].
   assert (Hfields : da_fields (debug_arm da) = visible_positions da Debug).
